@@ -3,7 +3,10 @@ C11 — conditional and range responses are sound.
 Property theorems only (helper lemmas live in Lemmas/Conditional.lean).
 -/
 import WzVerif.Lemmas.Conditional
+import WzVerif.Lemmas.EtagText
 import WzVerif.Gen.RangeTbl
+import WzVerif.Gen.EtagTbl
+import WzVerif.Gen.CondConsts
 namespace Wz.Props.C11
 open Wz Wz.Cond
 
@@ -1119,5 +1122,750 @@ theorem if_range_date_fail_full_body (rng : Str) (chunks : List Bytes) (cl : Opt
   obtain ⟨o, ho, hst, hcr, hb⟩ := ignored_range_full_body "GET".toList _ _ cl true chunks none kind hmc
   exact ⟨o, ho, hst, hcr, hb (by decide)⟩
 
+/-! ## constants of the glue, regenerated from the source -/
+
+/-- What the model hard-codes about the glue, read from the current source on every run (AST /
+live objects): `http.is_resource_modified` feeds each argument of the sans-io function from the
+environ key of the same name (a swapped pair — e.g. `If-Match` read as `If-None-Match` — changes the
+table); `make_conditional` acts for exactly `GET` and `HEAD`, sets 412 / 304, calls
+`is_resource_modified(environ, ETag header, None, Last-Modified header)` (If-Range ignored) while
+`_is_range_request_processable` calls it with `ignore_if_range=False`; `_process_range_request`
+sets 206; `send_file` calls `make_conditional(environ, accept_ranges=True, complete_length=size)`
+and generates the tag `{mtime}-{size}-{check}`; `wrap_file` / `FileWrapper` read blocks of
+`fileBufferSize` bytes. -/
+theorem cond_constants_pinned :
+    Gen.CondConsts.envKeys =
+      [("http_range".toList, "HTTP_RANGE".toList), ("http_if_range".toList, "HTTP_IF_RANGE".toList),
+       ("http_if_modified_since".toList, "HTTP_IF_MODIFIED_SINCE".toList),
+       ("http_if_none_match".toList, "HTTP_IF_NONE_MATCH".toList),
+       ("http_if_match".toList, "HTTP_IF_MATCH".toList)] ∧
+    Gen.CondConsts.condMethods = ["GET".toList, "HEAD".toList] ∧
+    Gen.CondConsts.condStatuses = [412, 304] ∧ Gen.CondConsts.rangeStatuses = [206] ∧
+    Gen.CondConsts.condCallArgs =
+      ["environ".toList, "self.headers.get('etag')".toList, "None".toList,
+       "self.headers.get('last-modified')".toList] ∧
+    Gen.CondConsts.ifRangeCallArgs =
+      ["environ".toList, "self.headers.get('etag')".toList, "None".toList,
+       "self.headers.get('last-modified')".toList, "ignore_if_range=False".toList] ∧
+    Gen.CondConsts.sendFileCallArgs =
+      ["environ".toList, "accept_ranges=True".toList, "complete_length=size".toList] ∧
+    Gen.CondConsts.sendFileEtagFormat =
+      ["{mtime}".toList, "-".toList, "{size}".toList, "-".toList, "{check}".toList] ∧
+    Gen.CondConsts.bufferDefaults = (fileBufferSize, fileBufferSize) := by decide
+
+
+/-! ## entity tags as header text: quoted tags whose text looks like syntax -/
+
+/-- The model of `_etag_re` is written for exactly this pattern and these flags (`re.UNICODE` only):
+`([Ww]/)?(?:"(.*?)"|(.*?))(?:\s*,\s*|$)`. -/
+theorem etag_re_pinned :
+    Gen.EtagTbl.etagRe = ("([Ww]/)?(?:\"(.*?)\"|(.*?))(?:\\s*,\\s*|$)".toList, 32) := by decide
+
+/-- set equality of a model tag list with the sorted tag list of a table row -/
+def sameTagSet (a : List (Option Str)) (b : List Str) : Bool :=
+  a.all (fun x => (b.map some).contains x) && b.all (fun x => a.contains (some x))
+
+/-- one row of `Gen.EtagTbl`: the model's `parse_etags` has the same strong set, weak set and
+`star_tag` as the live function returned -/
+def etagRowAgrees (r : Gen.EtagTbl.Row) : Bool :=
+  let e := parseEtags (some r.1)
+  e.star == r.2.2.2 && sameTagSet e.strong r.2.1 && sameTagSet e.weak r.2.2.1
+
+/-- The live `parse_etags` and the model agree on every header text of length ≤ 3 over the alphabet
+`"*W/, a`, on a pool of 22 entity tags / garbage tokens whose text looks like syntax (`*`, `"*"`,
+`W/"*"`, `W/*`, `""`, `"W/"`, `","`, `"a,b"`, `"*`, `*"` …), on every ordered pair of them with the
+separators `,` / `, ` / ` , ` and on every triple of the first six (≈ 2 100 rows, `decide` over the
+regenerated table). In particular the wildcard is recognised only *unquoted*: a change that reads
+the entity tag `"*"` as `*` (seeded change C11-c1) changes rows of the table. -/
+theorem etag_table_agrees : Gen.EtagTbl.blocks.all (fun b => b.all etagRowAgrees) = true := by
+  decide +kernel
+
+/-- `parse_etags` on header text, for every list of quoted entity tags (strong or `W/`-prefixed,
+any `\s*,\s*` separator, any tag text free of `"` and line feeds — `*`, `W/`, `,`, the empty text
+included): the parsed object holds exactly the listed tags and is **not** the wildcard. -/
+theorem parse_etags_text (sep : Str) (hs : IsSep sep) (ts : List (Str × Bool)) (hne : ts ≠ [])
+    (hc : ∀ t ∈ ts, CleanTag t.1) :
+    parseEtags (some (renderTags sep ts)) = ⟨strongOf ts, weakOf ts, false⟩ :=
+  parseEtags_render sep hs ts hne hc
+
+example : IsSep ", ".toList ∧ IsSep " ,".toList ∧ IsSep ",".toList :=
+  ⟨⟨[], [' '], rfl, by simp, by intro c hc; simp at hc; subst hc; decide⟩,
+   ⟨[' '], [], rfl, by intro c hc; simp at hc; subst hc; decide, by simp⟩,
+   ⟨[], [], rfl, by simp, by simp⟩⟩
+
+example : renderTags ", ".toList [("*".toList, false), ("W/".toList, true), (",".toList, false)] =
+      "\"*\", W/\"W/\", \",\"".toList ∧
+    parseEtags (some "\"*\", W/\"W/\", \",\"".toList) =
+      ⟨[some "*".toList, some ",".toList], [some "W/".toList], false⟩ ∧
+    parseEtags (some "*".toList) = ⟨[], [], true⟩ := by decide
+
+/-- "A 304 only when the validators really match / always when they do", on header TEXT through the
+tokenisation of `_etag_re`: `If-None-Match: <list of quoted tags>` against `ETag: "e"` or
+`ETag: W/"e"` is "not modified" exactly when `e` is one of the listed tag texts (weak comparison:
+the `W/` marks on either side are ignored) — whatever the dates say, and also when a listed tag's
+text is `*`: the quoted `"*"` is an ordinary entity tag, only the bare `*` is the wildcard. -/
+theorem inm_list_text_iff (sep : Str) (hs : IsSep sep) (ts : List (Str × Bool)) (hne : ts ≠ [])
+    (hc : ∀ t ∈ ts, CleanTag t.1) (e : Str) (w : Bool) (range ifRange : Option Str)
+    (ims : Option Int) (lm : Option (Int × Nat)) :
+    isResourceModified { range := range, ifRange := ifRange, ims := ims, inm := some (renderTags sep ts) }
+        (some (renderTag (e, w))) lm true = false ↔ ∃ t ∈ ts, t.1 = e := by
+  rw [if_none_match_precedence _ (renderTag (e, w)) e w (unquoteEtag_render (e, w))]
+  · simp only [parse_etags_text sep hs ts hne hc, ETags.containsWeak, ETags.contains, Bool.false_or,
+      Bool.not_eq_eq_eq_not, Bool.not_false, Bool.or_eq_true, mem_strongOf, mem_weakOf]
+    constructor
+    · rintro (h | h)
+      · exact ⟨_, h, rfl⟩
+      · exact ⟨_, h, rfl⟩
+    · rintro ⟨⟨a, b⟩, hm, rfl⟩
+      cases b
+      · right; exact hm
+      · left; exact hm
+  · simp only [parse_etags_text sep hs ts hne hc]; exact truthy_render ts hne
+  · simp [parseEtags, ETags.empty, ETags.truthy]
+
+example : isResourceModified { inm := some "\"*\"".toList } (some "\"v2\"".toList) none true = true ∧
+    isResourceModified { inm := some "\"v1\", \"*\"".toList } (some "\"v2\"".toList) none true = true ∧
+    isResourceModified { inm := some "\"*\"".toList } (some "\"*\"".toList) none true = false ∧
+    isResourceModified { inm := some "*".toList } (some "\"v2\"".toList) none true = false := by decide
+
+/-- … and the status: GET/HEAD with `If-None-Match: <quoted tag list>` against a response carrying
+`ETag: "e"` / `W/"e"` is answered 304 exactly when `e` is listed — with any `Range`, `If-Range`,
+`If-Modified-Since`, `Last-Modified`, whether or not ranges are accepted. -/
+theorem status_304_inm_text_iff (method : Str) (hm : method = "GET".toList ∨ method = "HEAD".toList)
+    (sep : Str) (hs : IsSep sep) (ts : List (Str × Bool)) (hne : ts ≠ [])
+    (hc : ∀ t ∈ ts, CleanTag t.1) (e : Str) (w : Bool) (range ifRange : Option Str)
+    (ims lm : Option Int) (cl : Option Int) (ar : Bool) :
+    makeConditionalStatus method
+        { range := range, ifRange := ifRange, ims := ims, inm := some (renderTags sep ts) }
+        { etag := some (renderTag (e, w)), lastModified := lm } cl ar = some (304, .notRange)
+      ↔ ∃ t ∈ ts, t.1 = e := by
+  have key := inm_list_text_iff sep hs ts hne hc e w range ifRange ims
+    (lmOf { etag := some (renderTag (e, w)), lastModified := lm })
+  have him : (parseEtags (CondReq.im
+      { range := range, ifRange := ifRange, ims := ims, inm := some (renderTags sep ts) })).truthy = false := by
+    simp [parseEtags, ETags.empty, ETags.truthy]
+  constructor
+  · intro h
+    have := (status_304_sound method _ _ cl ar _ h).2.2
+    exact key.mp ((not_modified_iff _ _ _).mpr this)
+  · intro hex
+    rw [status_not_modified method _ _ cl ar hm (key.mpr hex)]
+    simp [him]
+
+/-- "A 412 only when If-Match does not admit the current ETag", on header text: GET/HEAD with
+`If-Match: <quoted tag list>` against `ETag: "e"` / `W/"e"` is answered 412 exactly when `e` is not
+among the *strong* listed tags (strong comparison: a `W/` entry never admits) — a quoted `"*"`
+admits only the tag whose text is `*`. -/
+theorem status_412_im_text_iff (method : Str) (hm : method = "GET".toList ∨ method = "HEAD".toList)
+    (sep : Str) (hs : IsSep sep) (ts : List (Str × Bool)) (hne : ts ≠ [])
+    (hc : ∀ t ∈ ts, CleanTag t.1) (e : Str) (w : Bool) (range ifRange inm : Option Str)
+    (ims lm : Option Int) (cl : Option Int) (ar : Bool) :
+    makeConditionalStatus method
+        { range := range, ifRange := ifRange, ims := ims, inm := inm, im := some (renderTags sep ts) }
+        { etag := some (renderTag (e, w)), lastModified := lm } cl ar = some (412, .notRange)
+      ↔ (e, false) ∉ ts := by
+  have hp := parse_etags_text sep hs ts hne hc
+  have htr := truthy_render ts hne
+  have hnm : isResourceModified
+      { range := range, ifRange := ifRange, ims := ims, inm := inm, im := some (renderTags sep ts) }
+      (some (renderTag (e, w))) (lmOf { etag := some (renderTag (e, w)), lastModified := lm }) true = false
+      ↔ (e, false) ∉ ts := by
+    unfold isResourceModified
+    simp only [Bool.not_true, Bool.false_and, Bool.false_eq_true, ↓reduceIte, unquoteEtag_render, hp,
+      htr, ETags.contains, Bool.false_or, Bool.not_eq_eq_eq_not, Bool.not_false]
+    rw [← Bool.not_eq_true, mem_strongOf]
+  constructor
+  · intro h
+    obtain ⟨_, hadm⟩ := status_412_only_if method _ _ cl ar _ h
+    have := hadm e w (by simp [unquoteEtag_render])
+    simp only [hp, ETags.contains, Bool.false_or] at this
+    rw [← Bool.not_eq_true, mem_strongOf] at this
+    exact this
+  · intro hnot
+    rw [status_not_modified method _ _ cl ar hm (hnm.mpr hnot)]
+    simp [hp, htr]
+
+example : makeConditionalStatus "GET".toList { im := some "\"*\"".toList }
+      { etag := some "\"v2\"".toList } none false = some (412, .notRange) ∧
+    makeConditionalStatus "GET".toList { im := some "*".toList }
+      { etag := some "\"v2\"".toList } none false = some (200, .notRange) := by decide
+
+/-- The bare wildcard: `If-None-Match: *` against any response that carries an ETag is 304 for
+GET/HEAD, `If-Match: *` never 412. -/
+theorem inm_star_text (method : Str) (hm : method = "GET".toList ∨ method = "HEAD".toList)
+    (t : Str × Bool) (range ifRange : Option Str) (ims lm : Option Int) (cl : Option Int) (ar : Bool) :
+    makeConditionalStatus method { range := range, ifRange := ifRange, ims := ims, inm := some ['*'] }
+        { etag := some (renderTag t), lastModified := lm } cl ar = some (304, .notRange) := by
+  have hp : parseEtags (some ['*']) = ⟨[], [], true⟩ := by decide
+  have hnm : isResourceModified { range := range, ifRange := ifRange, ims := ims, inm := some ['*'] }
+      (some (renderTag t)) (lmOf { etag := some (renderTag t), lastModified := lm }) true = false := by
+    have hn : parseEtags none = ETags.empty := rfl
+    unfold isResourceModified
+    simp only [Bool.not_true, Bool.false_and, Bool.false_eq_true, ↓reduceIte, unquoteEtag_render, hp, hn]
+    simp [ETags.truthy, ETags.containsWeak, ETags.contains, ETags.empty]
+  rw [status_not_modified method _ _ cl ar hm hnm]
+  simp [parseEtags, ETags.empty, ETags.truthy]
+
+
+/-! ## If-Range with an entity tag, on header text (known finding F11g) -/
+
+/-- the full-strength reading of "a failed If-Range … yields the complete 200 body" for entity
+tags: `If-Range: "ie"` validates against `ETag: "e"` exactly when `ie = e` -/
+def IfRangeEtagFull : Prop :=
+  ∀ (ie e : Str), CleanTag ie → CleanTag e → ie ≠ [] →
+    (rangeProcessable { range := some "bytes=0-1".toList, ifRange := some (quoteTag ie) }
+        { etag := some (quoteTag e) } = true ↔ ie = e)
+
+/-- Known finding F11g: false. `is_resource_modified` hands the *unquoted* If-Range tag to
+`parse_etags`, a parser of header lists: `If-Range: "*"` is read as the wildcard and validates
+against every ETag (a 206 although the client's validator is not the current one); likewise
+`If-Range: "a, b"` validates against `ETag: "a"`. -/
+theorem if_range_etag_full_false : ¬ IfRangeEtagFull := by
+  intro h
+  have hc1 : CleanTag "*".toList := by
+    intro c hc
+    have : c = '*' := by simpa using hc
+    subst this; decide
+  have hc2 : CleanTag "v2".toList := by
+    intro c hc
+    have : c = 'v' ∨ c = '2' := by simpa using hc
+    rcases this with rfl | rfl <;> decide
+  have := (h "*".toList "v2".toList hc1 hc2 (by decide)).mp (by decide)
+  revert this
+  decide
+
+theorem if_range_etag_list_witness :
+    rangeProcessable { range := some "bytes=0-1".toList, ifRange := some "\"a, b\"".toList }
+      { etag := some "\"a\"".toList } = true := by decide
+
+/-- the exact boundary of F11g: the tag text, handed unquoted to `parse_etags`, reads back as the
+one strong tag it is (decidable for every concrete text) -/
+def SelfParsing (ie : Str) : Prop := parseEtags (some ie) = ⟨[some ie], [], false⟩
+
+instance (ie : Str) : Decidable (SelfParsing ie) := by unfold SelfParsing; infer_instance
+
+/-- every *plain* tag (non-empty, without white space, `,`, `"`, `/`, `*` — every tag werkzeug's
+`generate_etag` / `send_file` produce) is self-parsing; so are e.g. `a b` and `x/y` -/
+theorem plain_self_parsing (ie : Str) (hp : PlainTag ie) : SelfParsing ie := parseEtags_plain ie hp
+
+example : SelfParsing "a b".toList ∧ SelfParsing "x/y".toList ∧ ¬ SelfParsing "*".toList ∧
+    ¬ SelfParsing "a, b".toList ∧ ¬ SelfParsing "W/x".toList ∧ ¬ SelfParsing "".toList := by decide
+
+/-- `_partial`: for an If-Range tag that is self-parsing, `If-Range: "ie"` (or `W/"ie"`) with a
+`Range` header validates against `ETag: "e"` / `W/"e"` exactly when `ie = e`; otherwise the range
+request is not processable (complete 200 body, `failed_if_range_not_range`). Excluded: exactly the
+tag texts `parse_etags` re-interprets (F11g). -/
+theorem if_range_etag_partial (ie : Str) (wi : Bool) (hp : SelfParsing ie) (e : Str) (w : Bool)
+    (rng : Str) (ims inm im : Option Str) (lm : Option Int) :
+    rangeProcessable (mkReqText (some rng) (some (renderTag (ie, wi))) ims inm im)
+        { etag := some (renderTag (e, w)), lastModified := lm } = true ↔ ie = e := by
+  have hl : looksLikeEtag (renderTag (ie, wi)) = true := by
+    cases wi <;> simp [renderTag, quoteTag, looksLikeEtag, Py.isSpace]
+  have hne : (renderTag (ie, wi)).isEmpty = false := by
+    cases wi <;> simp [renderTag, quoteTag]
+  unfold SelfParsing at hp
+  unfold rangeProcessable mkReqText
+  simp only [Option.isNone_some, Bool.false_or, Option.isSome_some, Bool.and_true,
+    Bool.not_eq_eq_eq_not, Bool.not_true]
+  unfold isResourceModified
+  simp only [Bool.not_false, Option.isSome_some, Bool.and_self, ↓reduceIte, parseIfRangeHeader,
+    Option.map_some, Option.getD_some, hl, parseIfRange, hne, Bool.false_eq_true, unquoteEtag_render,
+    hp, ETags.contains, Bool.false_or, Bool.not_eq_eq_eq_not, Bool.not_false]
+  simp [eq_comm]
+
+example : PlainTag "abc-123".toList := by
+  refine ⟨by decide, ?_⟩
+  intro c hc
+  have : c = 'a' ∨ c = 'b' ∨ c = 'c' ∨ c = '-' ∨ c = '1' ∨ c = '2' ∨ c = '3' := by simpa using hc
+  rcases this with rfl | rfl | rfl | rfl | rfl | rfl | rfl <;> decide
+
+/-! ## the argument forms of `make_conditional` -/
+
+/-- Without a known `complete_length` the `Range` header is ignored: never 206, never 416. -/
+theorem unknown_length_ignores_range (method : Str) (q : CondReq) (r : RespIn) (ar : Bool) :
+    ∃ st, makeConditionalStatus method q r none ar = some (st, .notRange) ∧
+      (st = 200 ∨ st = 304 ∨ st = 412) := by
+  unfold makeConditionalStatus
+  split
+  · split
+    · split
+      · exact ⟨412, rfl, Or.inr (Or.inr rfl)⟩
+      · exact ⟨304, rfl, Or.inr (Or.inl rfl)⟩
+    · exact ⟨200, by simp [processRangeRequest], Or.inl rfl⟩
+  · exact ⟨200, rfl, Or.inl rfl⟩
+
+/-- `accept_ranges=False` (or the empty string): the `Range` header is ignored — never 206, never
+416, no `Accept-Ranges` header. -/
+theorem accept_ranges_falsy_ignores_range (method : Str) (q : CondReq) (r : RespIn) (cl : Option Int)
+    (acc : AcceptArg) (hacc : acc.truthy = false) (chunks : List Bytes) (seek : Option Nat) (kind : Nat) :
+    ∃ o, makeConditionalFull method q r cl acc chunks seek kind = some (o, none) ∧ o.status ≠ 206 := by
+  have hst : ∃ st, makeConditionalStatus method q r cl false = some (st, .notRange) ∧
+      (st = 200 ∨ st = 304 ∨ st = 412) := by
+    unfold makeConditionalStatus
+    split
+    · split
+      · split
+        · exact ⟨412, rfl, Or.inr (Or.inr rfl)⟩
+        · exact ⟨304, rfl, Or.inr (Or.inl rfl)⟩
+      · refine ⟨200, ?_, Or.inl rfl⟩
+        cases cl <;> simp [processRangeRequest]
+    · exact ⟨200, rfl, Or.inl rfl⟩
+  obtain ⟨st, hmc, hs⟩ := hst
+  unfold makeConditionalFull
+  rw [hacc]
+  unfold respond
+  simp only [hmc]
+  rcases hs with rfl | rfl | rfl <;> simp
+
+example : (AcceptArg.no).truthy = false ∧ (AcceptArg.unit []).truthy = false ∧
+    (AcceptArg.unit "none".toList).truthy = true := by decide
+
+/-- The `Accept-Ranges` header is written exactly on a 206 and carries the argument's unit
+(`True` ⇒ `bytes`, a string ⇒ that string). -/
+theorem accept_ranges_header_value (method : Str) (q : CondReq) (r : RespIn) (cl : Option Int)
+    (acc : AcceptArg) (chunks : List Bytes) (seek : Option Nat) (kind : Nat) (o : WsgiOut) (h : Option Str)
+    (hres : makeConditionalFull method q r cl acc chunks seek kind = some (o, h)) :
+    (o.status = 206 → h = some acc.header) ∧ (o.status ≠ 206 → h = none) := by
+  unfold makeConditionalFull at hres
+  cases hr : respond method q r cl acc.truthy chunks seek kind with
+  | none => rw [hr] at hres; cases hres
+  | some o' =>
+    rw [hr] at hres
+    simp only [Option.map_some, Option.some.injEq, Prod.mk.injEq] at hres
+    obtain ⟨rfl, rfl⟩ := hres
+    have := accept_ranges_iff_206 method q r cl acc.truthy chunks seek kind o' hr
+    constructor
+    · intro h206; simp [this.mpr h206]
+    · intro hne
+      have : o'.acceptRanges = false := by
+        cases hb : o'.acceptRanges with
+        | false => rfl
+        | true => exact absurd (this.mp hb) hne
+      simp [this]
+
+/-- The unit named by a string argument is only advertised: `accept_ranges='none'` still serves
+byte ranges (`Accept-Ranges: none` on a 206 for `Range: bytes=0-1`). Recorded as behaviour of the
+code, not as a requirement of the property. -/
+theorem accept_unit_string_serves_bytes :
+    (makeConditionalFull "GET".toList { range := some "bytes=0-1".toList } {} (some 6)
+        (.unit "none".toList) [[65, 66, 67], [68, 69, 70]] none 0).map
+      (fun p => (p.1.status, p.1.body, p.2)) = some (206, [[65, 66]], some "none".toList) := by decide
+
+/-- `satisfiable_range_206_general` for every kind of body: a list / generator of chunks *or* a
+seekable file read in blocks of any size. -/
+theorem satisfiable_range_206_any_body (d1 d2 : Str) (h1 : IsDigits d1) (h2 : IsDigits d2)
+    (hle : digitsVal d1 ≤ digitsVal d2) (chunks : List Bytes) (q : CondReq) (r : RespIn) (n : Nat)
+    (ha : digitsVal d1 < n) (kind : Nat) (seek : Option Nat) (hseek : ∀ bs, seek = some bs → 0 < bs)
+    (hq : q.range = some (bytesEq ++ (d1 ++ '-' :: d2)))
+    (hmod : isResourceModified q r.etag (lmOf r) true = true) (hproc : rangeProcessable q r = true) :
+    let a : Nat := digitsVal d1
+    let b : Nat := min (digitsVal d2 + 1) n
+    ∃ o, respond "GET".toList q r (some (n : Int)) true chunks seek kind = some o ∧
+      o.status = 206 ∧ o.contentRange = some ((a : Int), (b : Int) - 1, (n : Int)) ∧
+      o.contentLength = some ((b : Int) - a) ∧
+      o.body.flatten = (chunks.flatten.drop a).take (b - a) := by
+  intro a b
+  have hp := parse_range_first_last d1 d2 h1 h2 hle
+  have hrf : rangeForLength ⟨bytesUnit, [((digitsVal d1 : Int), some ((digitsVal d2 : Int) + 1))]⟩
+      (some (n : Int)) = some ((a : Int), (b : Int)) := by
+    unfold rangeForLength isByteRangeValid
+    have c1 : ¬ ((digitsVal d1 : Int) ≥ (digitsVal d2 : Int) + 1) := by omega
+    have c2 : (digitsVal d1 : Int) < (n : Int) := by omega
+    simp [c1, c2, a, b]
+    omega
+  have hmc : makeConditionalStatus "GET".toList q r (some (n : Int)) true
+      = some (206, .partialContent a b) := by
+    have hz : n ≠ 0 := by omega
+    rw [status_modified _ _ _ _ _ (Or.inl rfl) hmod]
+    simp [processRangeRequest, hproc, hq, hp, hrf, hz]
+  have e1 : ("GET".toList == ['H', 'E', 'A', 'D']) = false := by decide
+  have e : ((b : Int) - (a : Int)).toNat = b - a := by omega
+  cases seek with
+  | none =>
+    refine ⟨⟨206, some ((a : Int), (b : Int) - 1, (n : Int)), some ((b : Int) - a),
+        rangeWrapIter chunks a (b - a), true⟩, ?_, rfl, rfl, rfl, (rangeWrapper_exact_iter chunks a (b - a)).1⟩
+    simp only [respond, hmc, e1, Bool.false_eq_true, ↓reduceIte, Option.getD_some, Int.toNat_natCast, e]
+  | some bs =>
+    refine ⟨⟨206, some ((a : Int), (b : Int) - 1, (n : Int)), some ((b : Int) - a),
+        rangeWrapSeek chunks.flatten bs a (b - a), true⟩, ?_, rfl, rfl, rfl,
+        (rangeWrapper_exact_seek chunks.flatten bs (hseek bs rfl) a (b - a)).1⟩
+    simp only [respond, hmc, e1, Bool.false_eq_true, ↓reduceIte, Option.getD_some, Int.toNat_natCast, e]
+
+/-! ## satisfiable ranges are always served (every spelling, every body) -/
+
+/-- "A 206 always when the range is satisfiable": for a GET whose resource counts as modified, whose
+range request is processable and whose `Range` header parses to a range that `range_for_length`
+accepts as `[a, b)` for the (non-zero) length `n`, the answer *is* the 206 with
+`Content-Range: bytes a-(b-1)/n`, `Content-Length: b-a` and exactly the bytes `[a, b)` of the body —
+for every chunking, for generator / list / file bodies, seekable or not. Together with
+`range_416_partial` (no such range ⇒ 416) and `ignored_range_full_body` this decides every GET. -/
+theorem range_206_complete (q : CondReq) (r : RespIn) (n : Nat) (hn : n ≠ 0) (pr : Range) (a b : Int)
+    (hp : parseRangeHeader q.range = some pr) (hrf : rangeForLength pr (some (n : Int)) = some (a, b))
+    (hmod : isResourceModified q r.etag (lmOf r) true = true) (hproc : rangeProcessable q r = true)
+    (chunks : List Bytes) (seek : Option Nat) (hseek : ∀ bs, seek = some bs → 0 < bs) (kind : Nat) :
+    ∃ o, respond "GET".toList q r (some (n : Int)) true chunks seek kind = some o ∧
+      o.status = 206 ∧ o.contentRange = some (a, b - 1, (n : Int)) ∧ o.contentLength = some (b - a) ∧
+      0 ≤ a ∧ a < b ∧ b ≤ n ∧
+      o.body.flatten = (chunks.flatten.drop a.toNat).take (b - a).toNat := by
+  obtain ⟨h0, hab, hbl, _⟩ := rangeForLength_sound pr n a b hrf
+  have hmc : makeConditionalStatus "GET".toList q r (some (n : Int)) true
+      = some (206, .partialContent a b) := by
+    rw [status_modified _ _ _ _ _ (Or.inl rfl) hmod]
+    have hz : ((n : Int) == 0) = false := by simpa using hn
+    simp [processRangeRequest, hproc, hp, hrf, hz]
+  have e1 : ("GET".toList == ['H', 'E', 'A', 'D']) = false := by decide
+  cases seek with
+  | none =>
+    refine ⟨⟨206, some (a, b - 1, (n : Int)), some (b - a), rangeWrapIter chunks a.toNat (b - a).toNat, true⟩,
+      ?_, rfl, rfl, rfl, h0, hab, hbl, (rangeWrapper_exact_iter chunks _ _).1⟩
+    simp only [respond, hmc, e1, Bool.false_eq_true, ↓reduceIte, Option.getD_some]
+  | some bs =>
+    refine ⟨⟨206, some (a, b - 1, (n : Int)), some (b - a), rangeWrapSeek chunks.flatten bs a.toNat (b - a).toNat, true⟩,
+      ?_, rfl, rfl, rfl, h0, hab, hbl, (rangeWrapper_exact_seek chunks.flatten bs (hseek bs rfl) _ _).1⟩
+    simp only [respond, hmc, e1, Bool.false_eq_true, ↓reduceIte, Option.getD_some]
+
+/-- `Range: bytes=<first>-` (open ended, `first` inside the resource): 206 with exactly
+`body[first:]`, `Content-Range: bytes first-(n-1)/n`. -/
+theorem satisfiable_open_206 (d1 : Str) (h1 : IsDigits d1) (q : CondReq) (r : RespIn) (n : Nat)
+    (ha : digitsVal d1 < n) (hq : q.range = some (bytesEq ++ (d1 ++ ['-'])))
+    (hmod : isResourceModified q r.etag (lmOf r) true = true) (hproc : rangeProcessable q r = true)
+    (chunks : List Bytes) (seek : Option Nat) (hseek : ∀ bs, seek = some bs → 0 < bs) (kind : Nat) :
+    ∃ o, respond "GET".toList q r (some (n : Int)) true chunks seek kind = some o ∧
+      o.status = 206 ∧ o.contentRange = some ((digitsVal d1 : Int), (n : Int) - 1, (n : Int)) ∧
+      o.contentLength = some ((n : Int) - digitsVal d1) ∧
+      o.body.flatten = (chunks.flatten.drop (digitsVal d1)).take (n - digitsVal d1) := by
+  have hrf : rangeForLength ⟨bytesUnit, [((digitsVal d1 : Int), none)]⟩ (some (n : Int))
+      = some ((digitsVal d1 : Int), (n : Int)) := by
+    unfold rangeForLength isByteRangeValid
+    have c1 : ¬ ((digitsVal d1 : Int) < 0) := by omega
+    have c2 : ¬ ((digitsVal d1 : Int) ≥ (n : Int)) := by omega
+    have c3 : (digitsVal d1 : Int) < (n : Int) := by omega
+    simp [c1, c3]
+    exact ha
+  obtain ⟨o, ho, hst, hcr, hcl, _, _, _, hb⟩ := range_206_complete q r n (by omega) _ _ _
+    (by rw [hq]; exact parse_range_open d1 h1) hrf hmod hproc chunks seek hseek kind
+  refine ⟨o, ho, hst, hcr, hcl, ?_⟩
+  rw [hb]
+  have e : ((n : Int) - (digitsVal d1 : Int)).toNat = n - digitsVal d1 := by omega
+  simp [e]
+
+/-- `Range: bytes=-<k>` (the last `k` bytes, `0 < k ≤ n`): 206 with exactly `body[n-k:]`. -/
+theorem satisfiable_suffix_206 (d : Str) (h : IsDigits d) (hpos : 0 < digitsVal d) (q : CondReq)
+    (r : RespIn) (n : Nat) (hk : digitsVal d ≤ n) (hq : q.range = some (bytesEq ++ ('-' :: d)))
+    (hmod : isResourceModified q r.etag (lmOf r) true = true) (hproc : rangeProcessable q r = true)
+    (chunks : List Bytes) (seek : Option Nat) (hseek : ∀ bs, seek = some bs → 0 < bs) (kind : Nat) :
+    ∃ o, respond "GET".toList q r (some (n : Int)) true chunks seek kind = some o ∧
+      o.status = 206 ∧ o.contentRange = some ((n : Int) - digitsVal d, (n : Int) - 1, (n : Int)) ∧
+      o.contentLength = some (digitsVal d : Int) ∧
+      o.body.flatten = (chunks.flatten.drop (n - digitsVal d)).take (digitsVal d) := by
+  have hrf : rangeForLength ⟨bytesUnit, [(-(digitsVal d : Int), none)]⟩ (some (n : Int))
+      = some ((n : Int) - digitsVal d, (n : Int)) := by
+    unfold rangeForLength isByteRangeValid
+    have c1 : (-(digitsVal d : Int)) < 0 := by omega
+    have c2 : ¬ (-(digitsVal d : Int) + (n : Int) ≥ (n : Int)) := by omega
+    have c3 : (0 : Int) ≤ -(digitsVal d : Int) + (n : Int) := by omega
+    have c4 : -(digitsVal d : Int) + (n : Int) < (n : Int) := by omega
+    simp [c1, c3, c4]
+    omega
+  obtain ⟨o, ho, hst, hcr, hcl, _, _, _, hb⟩ := range_206_complete q r n (by omega) _ _ _
+    (by rw [hq]; exact parse_range_suffix d h hpos) hrf hmod hproc chunks seek hseek kind
+  refine ⟨o, ho, hst, hcr, ?_, ?_⟩
+  · rw [hcl]; congr 1; omega
+  · rw [hb]
+    have e1 : ((n : Int) - (digitsVal d : Int)).toNat = n - digitsVal d := by omega
+    have e2 : ((n : Int) - ((n : Int) - (digitsVal d : Int))).toNat = digitsVal d := by omega
+    rw [e1, e2]
+
+example : (respond "GET".toList { range := some "bytes=-2".toList } {} (some 6) true
+    [[65, 66, 67], [], [68, 69, 70]] (some 4) 2).map (fun o => (o.status, o.contentRange, o.body)) =
+    some (206, some (4, 5, 6), [[69, 70]]) := by decide
+
+/-- Unparsable spellings, as text: a header without `=`, and `bytes=<first>-<last>` with
+`first > last`, do not parse — `range_416_partial` answers them with 416. -/
+theorem unparsable_range_text (d1 d2 : Str) (h1 : IsDigits d1) (h2 : IsDigits d2)
+    (hgt : digitsVal d2 < digitsVal d1) (v : Str) (hv : v.contains '=' = false) :
+    parseRangeHeader (some v) = none ∧ parseRangeHeader (some (bytesEq ++ (d1 ++ '-' :: d2))) = none := by
+  constructor
+  · have hv' : ¬ ('=' ∈ v) := by simpa using hv
+    simp [parseRangeHeader, hv']
+  · have hnc : ∀ c ∈ d1 ++ '-' :: d2, c ≠ ',' := by
+      intro c hc
+      rcases List.mem_append.mp hc with hc | hc
+      · exact digits_no_comma h1.2 c hc
+      · rcases List.mem_cons.mp hc with rfl | hc
+        · decide
+        · exact digits_no_comma h2.2 c hc
+    rw [parseRangeHeader_bytes, splitOnChar_none _ _ _ hnc]
+    simp only [List.reverse_nil, List.nil_append]
+    -- the single item: begin parses, end parses, begin >= end + 1 -> None
+    have hsp : ∀ c ∈ d1 ++ '-' :: d2, Py.isSpace c = false := by
+      intro c hc
+      rcases List.mem_append.mp hc with hc | hc
+      · exact digit_not_space (h1.2 c hc)
+      · rcases List.mem_cons.mp hc with rfl | hc
+        · decide
+        · exact digit_not_space (h2.2 c hc)
+    have htd := takeWhile_digits_dash d1 d2 h1.2
+    have hhead : ((d1 ++ '-' :: d2).head? == some '-') = false := by
+      cases d1 with
+      | nil => exact absurd rfl h1.1
+      | cons c t =>
+        have hc : c ≠ '-' := digit_ne (h1.2 c (by simp)) (by decide)
+        simpa using hc
+    have hcont : (d1 ++ '-' :: d2).contains '-' = true := by simp
+    have hs1 := strip_noSpace d1 (fun c hc => digit_not_space (h1.2 c hc))
+    have hs2 := strip_noSpace d2 (fun c hc => digit_not_space (h2.2 c hc))
+    have he2 : d2.isEmpty = false := by
+      cases d2 with
+      | nil => exact absurd rfl h2.1
+      | cons _ _ => rfl
+    rw [parseRangeItems]
+    simp only [strip_noSpace _ hsp, hcont, Bool.not_true, Bool.false_eq_true, ↓reduceIte, htd.1, htd.2,
+      List.drop_succ_cons, List.drop_zero, hs1, hs2, plainInt_digits d1 h1, plainInt_digits d2 h2, he2, hhead]
+    have c2 : (decide ((digitsVal d1 : Int) < 0) || decide ((0 : Int) < 0)) = false := by
+      simp
+    simp only [c2, Bool.false_eq_true, ↓reduceIte]
+    have c3 : (digitsVal d1 : Int) ≥ (digitsVal d2 : Int) + 1 := by omega
+    simp [c3]
+
+
+example : parseRangeHeader (some "bytes".toList) = none ∧ parseRangeHeader (some "bytes=5-2".toList) = none := by
+  decide
+
+
+/-! ## `utils.send_file` -/
+
+/-- the blocks a `FileWrapper` yields concatenate to the file's content -/
+theorem file_blocks_flatten (data : Bytes) :
+    (blocks fileBufferSize (data.length + 1) data).flatten = data :=
+  blocks_flatten fileBufferSize (by decide) _ _ (by omega)
+
+/-- `send_file` *is* `make_conditional(environ, accept_ranges=True, complete_length=size)` on a
+`direct_passthrough` response over a `FileWrapper` whose validators are the generated (or given)
+ETag and the file's Last-Modified — so every theorem above about `respond` applies to file
+responses. -/
+theorem send_file_is_make_conditional (a : SendFile) (hc : a.conditional = true) (et : Option Str)
+    (het : a.etagHeader = .ok et) (method : Str) (q : CondReq) (data : Bytes) (seekable : Bool) :
+    sendFile a method q data seekable =
+      .ok ((respond method q { etag := et, lastModified := a.lastMod } a.clen true
+          (blocks fileBufferSize (data.length + 1) data)
+          (if seekable then some fileBufferSize else none) 2).map
+        fun o => if o.status == 200 || o.status == 412
+          then { o with contentLength := a.clen } else o) := by
+  simp [sendFile, het, hc]
+
+/-- Revalidation: a GET/HEAD that sends back, as `If-None-Match`, the entity tag `send_file`
+generated for the file as it is now (same mtime text, size and path checksum) is answered 304 —
+whatever else the request carries (`Range`, `If-Range`, dates). -/
+theorem send_file_revalidate_304 (a : SendFile) (hc : a.conditional = true) (hp : a.isPath = true)
+    (he : a.etag = .auto) (hclean : CleanTag a.autoTag)
+    (method : Str) (hm : method = "GET".toList ∨ method = "HEAD".toList)
+    (range ifRange : Option Str) (ims : Option Int) (data : Bytes) (seekable : Bool) :
+    sendFile a method { range := range, ifRange := ifRange, ims := ims, inm := some (quoteTag a.autoTag) }
+        data seekable = .ok (some ⟨304, none, none, [], false⟩) := by
+  have het : a.etagHeader = .ok (some (quoteTag a.autoTag)) := by
+    simp [SendFile.etagHeader, he, hp, quoteTag]
+  rw [send_file_is_make_conditional a hc _ het]
+  have hsep : IsSep [','] := ⟨[], [], rfl, by simp, by simp⟩
+  have h304 := (status_304_inm_text_iff method hm [','] hsep [(a.autoTag, false)] (by simp)
+    (by intro t ht; simp at ht; subst ht; exact hclean) a.autoTag false range ifRange ims a.lastMod
+    a.clen true).mpr ⟨(a.autoTag, false), by simp, rfl⟩
+  have e1 : renderTags [','] [(a.autoTag, false)] = quoteTag a.autoTag := by simp [renderTags, renderTag]
+  have e2 : renderTag (a.autoTag, false) = quoteTag a.autoTag := by simp [renderTag]
+  rw [e1, e2] at h304
+  simp [respond, h304]
+
+/-- Staleness: after the file changed so that the generated tag text differs (another mtime text or
+another size), the old tag in `If-None-Match` no longer gives 304. -/
+theorem send_file_changed_not_304 (a : SendFile) (hc : a.conditional = true) (hp : a.isPath = true)
+    (he : a.etag = .auto) (old : Str) (hold : CleanTag old)
+    (hne : old ≠ a.autoTag) (method : Str) (range ifRange : Option Str) (ims : Option Int)
+    (data : Bytes) (seekable : Bool) (o : WsgiOut)
+    (h : sendFile a method { range := range, ifRange := ifRange, ims := ims, inm := some (quoteTag old) }
+        data seekable = .ok (some o)) : o.status ≠ 304 := by
+  have het : a.etagHeader = .ok (some (quoteTag a.autoTag)) := by
+    simp [SendFile.etagHeader, he, hp, quoteTag]
+  rw [send_file_is_make_conditional a hc _ het] at h
+  simp only [Except.ok.injEq] at h
+  intro h304
+  cases hr : respond method { range := range, ifRange := ifRange, ims := ims, inm := some (quoteTag old) }
+      { etag := some (quoteTag a.autoTag), lastModified := a.lastMod } a.clen true
+      (blocks fileBufferSize (data.length + 1) data) (if seekable then some fileBufferSize else none) 2 with
+  | none => rw [hr] at h; cases h
+  | some o' =>
+    rw [hr] at h
+    simp only [Option.map_some, Option.some.injEq] at h
+    have ho' : o'.status = 304 := by
+      subst h
+      by_cases hx : (o'.status == 200 || o'.status == 412) = true
+      · simp only [hx, ↓reduceIte] at h304
+        simp only [Bool.or_eq_true, beq_iff_eq] at hx
+        omega
+      · simpa [hx] using h304
+    rcases respond_cases _ _ _ _ _ _ _ _ o' hr with ⟨_, _, _, h206, _⟩ | ⟨hmc, _⟩ | ⟨st, hst, _, hs', _⟩
+    · omega
+    · have hsep : IsSep [','] := ⟨[], [], rfl, by simp, by simp⟩
+      have hm := (status_304_sound method _ _ _ true _ hmc).1
+      have key := (status_304_inm_text_iff method hm [','] hsep [(old, false)] (by simp)
+        (by intro t ht; simp at ht; subst ht; exact hold) a.autoTag false range ifRange ims a.lastMod
+        a.clen true).mp
+      have e1 : renderTags [','] [(old, false)] = quoteTag old := by simp [renderTags, renderTag]
+      have e2 : renderTag (a.autoTag, false) = quoteTag a.autoTag := by simp [renderTag]
+      rw [e1, e2] at key
+      obtain ⟨t, ht, hte⟩ := key hmc
+      simp at ht
+      subst ht
+      exact hne hte
+    · rcases hst with rfl | rfl <;> omega
+
+/-- Revalidation by date: `send_file` with a Last-Modified instant `t` (from the file's mtime or the
+`last_modified` argument; no ETag on the response, e.g. `etag=False`) answers a GET/HEAD carrying
+`If-Modified-Since: <http_date(t')>` with 304 exactly when `t ≤ t'` — one-second resolution, the
+sub-second part of the mtime plays no role. -/
+theorem send_file_ims_text_iff (a : SendFile) (hc : a.conditional = true) (he : a.etagHeader = .ok none)
+    (t t' : Nat) (hlm : a.lastMod = some (t : Int)) (ht' : InDateRange t')
+    (method : Str) (hm : method = "GET".toList ∨ method = "HEAD".toList)
+    (range ifRange : Option Str) (data : Bytes) (seekable : Bool) :
+    sendFile a method (mkReqText range ifRange (some (Date.httpDate t')) none none) data seekable
+      = .ok (some ⟨304, none, none, [], false⟩) ↔ t ≤ t' := by
+  rw [send_file_is_make_conditional a hc none he, hlm]
+  have key := ims_text_iff t' ht' none (t : Int) 0 range ifRange
+  have hlm' : lmOf { etag := none, lastModified := some (t : Int) } = some ((t : Int), 0) := rfl
+  have him : (parseEtags (mkReqText range ifRange (some (Date.httpDate t')) none none).im).truthy = false := by
+    simp [mkReqText, parseEtags, ETags.empty, ETags.truthy]
+  constructor
+  · intro h
+    simp only [Except.ok.injEq] at h
+    cases hr : respond method (mkReqText range ifRange (some (Date.httpDate t')) none none)
+        { etag := none, lastModified := some (t : Int) } a.clen true
+        (blocks fileBufferSize (data.length + 1) data) (if seekable then some fileBufferSize else none) 2 with
+    | none => rw [hr] at h; cases h
+    | some o' =>
+      rw [hr] at h
+      simp only [Option.map_some, Option.some.injEq] at h
+      have ho' : o'.status = 304 := by
+        by_cases hx : (o'.status == 200 || o'.status == 412) = true
+        · simp only [hx, ↓reduceIte] at h
+          have := congrArg WsgiOut.status h
+          simp only [Bool.or_eq_true, beq_iff_eq] at hx
+          simp at this
+          omega
+        · simp only [hx] at h
+          simp at h
+          rw [h]
+      rcases respond_cases _ _ _ _ _ _ _ _ o' hr with ⟨_, _, _, h206, _⟩ | ⟨hmc, _⟩ | ⟨st, hst, _, hs', _⟩
+      · omega
+      · have := (status_304_sound method _ _ _ true _ hmc).2.2
+        have hnm := (not_modified_iff _ _ _).mpr this
+        rw [hlm'] at hnm
+        exact Int.ofNat_le.mp (key.mp hnm)
+      · rcases hst with rfl | rfl <;> omega
+  · intro hle
+    have hnm : isResourceModified (mkReqText range ifRange (some (Date.httpDate t')) none none)
+        (RespIn.etag { etag := none, lastModified := some (t : Int) })
+        (lmOf { etag := none, lastModified := some (t : Int) }) true = false := by
+      rw [hlm']; exact key.mpr (Int.ofNat_le.mpr hle)
+    have hmc := status_not_modified method _ _ a.clen true hm hnm
+    simp only [him, Bool.false_eq_true, ↓reduceIte] at hmc
+    simp [respond, hmc]
+
+
+/-- Ranges over files: `send_file` of a path (or `BytesIO`) holding `data`, answered to a GET with
+`Range: bytes=<first>-<last>` (first ≤ last, first inside the file, no validators): 206 with
+`Content-Range: bytes first-(b-1)/n`, `Content-Length: b - first`, `b = min(last+1, n)`, and a body
+that is exactly `data[first:b]` — whether the file object is seekable (seek + block reads of 8192
+bytes) or not (blocks skipped up to the start). -/
+theorem send_file_range_exact (a : SendFile) (hc : a.conditional = true) (data : Bytes)
+    (hs : a.size = some data.length) (et : Option Str) (het : a.etagHeader = .ok et)
+    (d1 d2 : Str) (h1 : IsDigits d1) (h2 : IsDigits d2) (hle : digitsVal d1 ≤ digitsVal d2)
+    (hlt : digitsVal d1 < data.length) (seekable : Bool) :
+    let lo : Nat := digitsVal d1
+    let hi : Nat := min (digitsVal d2 + 1) data.length
+    ∃ o, sendFile a "GET".toList { range := some (bytesEq ++ (d1 ++ '-' :: d2)) } data seekable = .ok (some o) ∧
+      o.status = 206 ∧ o.contentRange = some ((lo : Int), (hi : Int) - 1, (data.length : Int)) ∧
+      o.contentLength = some ((hi : Int) - lo) ∧ o.body.flatten = (data.drop lo).take (hi - lo) := by
+  intro lo hi
+  rw [send_file_is_make_conditional a hc et het]
+  obtain ⟨o, ho, hst, hcr, hcl, hb⟩ := satisfiable_range_206_any_body d1 d2 h1 h2 hle
+    (blocks fileBufferSize (data.length + 1) data) { range := some (bytesEq ++ (d1 ++ '-' :: d2)) }
+    { etag := et, lastModified := a.lastMod } data.length hlt 2
+    (if seekable then some fileBufferSize else none)
+    (by intro bs hbs; cases seekable <;> simp at hbs; subst hbs; decide) rfl
+    (no_validators_modified_general _ rfl rfl rfl _ _) (by simp [rangeProcessable])
+  refine ⟨o, ?_, hst, hcr, hcl, ?_⟩
+  · have e : a.clen = some (data.length : Int) := by simp [SendFile.clen, hs]
+    rw [e, ho]
+    simp [hst]
+  · rw [hb, file_blocks_flatten]
+
+/-- A file object of unknown size (neither a path nor a `BytesIO`): `complete_length` is `None`, the
+`Range` header is ignored — the answer is never 206 and never 416. -/
+theorem send_file_unknown_size_no_range (a : SendFile) (hs : a.size = none) (method : Str) (q : CondReq)
+    (data : Bytes) (seekable : Bool) (et : Option Str) (het : a.etagHeader = .ok et) :
+    ∃ o, sendFile a method q data seekable = .ok (some o) ∧ o.status ≠ 206 := by
+  by_cases hc : a.conditional = true
+  · rw [send_file_is_make_conditional a hc et het]
+    obtain ⟨st, hmc, hst⟩ := unknown_length_ignores_range method q { etag := et, lastModified := a.lastMod } true
+    have e : a.clen = none := by simp [SendFile.clen, hs]
+    rw [e]
+    unfold respond
+    simp only [hmc]
+    rcases hst with rfl | rfl | rfl <;> simp
+  · have hc' : a.conditional = false := by simpa using hc
+    simp [sendFile, het, hc']
+
+/-- `conditional=False`: always the complete 200 response, whatever the request says. -/
+theorem send_file_unconditional (a : SendFile) (hc : a.conditional = false) (et : Option Str)
+    (het : a.etagHeader = .ok et) (q : CondReq) (data : Bytes) (seekable : Bool) :
+    ∃ o, sendFile a "GET".toList q data seekable = .ok (some o) ∧ o.status = 200 ∧
+      o.contentRange = none ∧ o.body.flatten = data := by
+  refine ⟨_, by simp [sendFile, het, hc]; rfl, rfl, rfl, ?_⟩
+  simp [file_blocks_flatten]
+
+/-- The cache headers `send_file` sets next to the validators: without `max_age` the response is
+`no-cache` and has no `Expires` (every reuse must revalidate — which the theorems above decide);
+a positive `max_age` gives `public, max-age=n` and `Expires = now + n`; zero or negative values keep
+`no-cache`. -/
+theorem send_file_cache_headers (n : Int) (now : Int) :
+    sendFileCacheControl none = "no-cache".toList ∧ sendFileExpires none now = none ∧
+    (0 < n → sendFileCacheControl (some n) = "public, max-age=".toList ++ (toString n).toList) ∧
+    (n ≤ 0 → sendFileCacheControl (some n) = "no-cache, max-age=".toList ++ (toString n).toList) ∧
+    sendFileExpires (some n) now = some (now + n) := by
+  refine ⟨rfl, rfl, ?_, ?_, rfl⟩
+  · intro h
+    show (if n > 0 then _ else _) = _
+    rw [if_pos h]
+  · intro h
+    have : ¬ (n > 0) := by omega
+    show (if n > 0 then _ else _) = _
+    rw [if_neg this]
+
+
+/-- a given entity tag containing `"` is refused (`quote_etag` raises ValueError) -/
+theorem send_file_bad_given_etag (a : SendFile) (s : Str) (he : a.etag = .given s) (hq : '"' ∈ s)
+    (method : Str) (q : CondReq) (data : Bytes) (seekable : Bool) :
+    sendFile a method q data seekable = .error "ValueError" := by
+  simp [sendFile, SendFile.etagHeader, he, hq]
+
+/-- a path of 10 bytes, mtime 1767225600.25, checksum 7 -/
+def exampleFile : SendFile := ⟨true, some 10, some (1767225600, 250000), "1767225600.25".toList, 7, .auto, none, true⟩
+
+example : exampleFile.autoTag = "1767225600.25-10-7".toList ∧
+    (match sendFile exampleFile "GET".toList { inm := some "\"1767225600.25-10-7\"".toList }
+        [1, 2, 3, 4, 5, 6, 7, 8, 9, 10] true with
+      | .ok (some o) => o.status
+      | _ => 0) = 304 ∧
+    (match sendFile exampleFile "GET".toList { inm := some "\"1767225599.25-10-7\"".toList }
+        [1, 2, 3, 4, 5, 6, 7, 8, 9, 10] true with
+      | .ok (some o) => o.status
+      | _ => 0) = 200 ∧
+    (match sendFile exampleFile "GET".toList { range := some "bytes=2-4".toList }
+        [1, 2, 3, 4, 5, 6, 7, 8, 9, 10] true with
+      | .ok (some o) => (o.status, o.body)
+      | _ => (0, [])) = (206, [[3, 4, 5]]) := by decide
+
+
+example : (⟨true, some 10, some (1767225600, 250000), "1767225600.25".toList, 7, .auto, none, true⟩ : SendFile).autoTag
+    = "1767225600.25-10-7".toList := by decide
 
 end Wz.Props.C11
